@@ -15,12 +15,18 @@ CLAIMED = {
  "C04": ("exploration", "exhaustive short-input enumeration + mutation-based and random property testing of every parser (proptest); libFuzzer target in thorough",
          "Every byte string of length <=2 (thorough <=3) is fed to each of the 102 packet-parser instantiations and 6 sub-parsers (complete enumeration); 300k (thorough 5M) structured mutations of valid reference encodings and 200k (3M) random strings follow. On acceptance the packet must be self-consistent (size, re-parse, UTF-8) and rebuildable through the public builder of the same kind.",
          "'Structural rules the builders enforce' is decided by rebuilding the accepted packet from its accessor values through the public builder; nothing is asserted about error values or trailing bytes. VariableByteInteger::decode_stream alone is allowed to canonicalise.", "DESIGN.md §3 C04"),
+ "C05": ("exploration", "stateful property-based testing (proptest op histories with shrinking) of a hostile peer against contract-respecting local calls; libFuzzer target in thorough",
+         "Random phase-structured histories (handshake, traffic, close, reconnect; all roles, versions incl. undetermined, options) interleave contract-respecting local calls with valid, boundary-valued, mutated and garbage peer frames under arbitrary chunking. Every call must return (catch_unwind, overflow checks and debug assertions on), every recv call must advance the cursor, event lists stay bounded, every complete frame fed is delivered, reported or answered as a QoS2 duplicate, and after notify_closed a fresh handshake is accepted.",
+         "The application model is contract-respecting: ids from acquire/register, an id is released only while the application owns it (or was told to release it on send error), PUBREL only after PUBREC, timers fired only when armed. Frame dispositions are counted per op (lower bound). A wedge inside one library call would hit the watchdog (exit 2).", "DESIGN.md §3 C05"),
  "C09": ("exploration", "metamorphic/differential property testing of the stream framer (chunking invariance) with exhaustive 1-/2-cut partitions of short streams",
          "Random streams of valid packets, over-long Remaining Lengths and garbage are cut by random, per-byte and header-targeted partitions; PacketBuilder::feed must agree with an independent reference framer (one result per call, no over-read, resume after a bad length) and a chunk-fed connection must produce the same normalised event trace and final state as a whole-frame-fed one. All 1- and 2-cut partitions of 1000 (thorough 10000) short streams are enumerated.",
          "Trusts refcodec::frame as the reference framer. Runs of consecutive id-release events are compared as multisets (hash-set order). A panic in recv is left to C05.", "DESIGN.md §3 C09"),
  "C18": ("exploration", "exhaustive table enumeration against the specification's property table plus random property sets (proptest)",
          "The complete table 27 property kinds x 14 locations x occurrences {1,2} x boundary values is enumerated for the builder path and, through independently encoded bytes, for the parser path; 200k (thorough 3M) random multi-property sets follow. Verdicts must equal MQTT 5.0 table 2-4 plus the value rules, and builder must equal parser.",
          "The oracle table is transcribed in harness/src/ap.rs (PROP_TABLE, prop_value_ok). Authentication Data is always accompanied by an Authentication Method (cross-property rule kept out of the cells).", "DESIGN.md §3 C18"),
+ "C19": ("exploration", "history invariant (monitor) over proptest-generated connection histories",
+         "Every event list returned in random histories (all roles/versions, error, timeout, handshake-failure and hostile-peer paths) is checked: no RequestClose before a RequestSendPacket, every DISCONNECT sent and every failing CONNACK sent is accompanied by a close request, and a keep-alive timeout on an established connection yields one. The shapes of closing lists are reported as a histogram.",
+         "'Established' = connected and the library has not already requested the close. One list = one returned Vec<Event> (each recv call separately).", "DESIGN.md §3 C19"),
  "C20": ("exploration", "model-based testing against a set-of-free-integers model: exhaustive small-scope enumeration plus proptest sequences",
          "Every op sequence up to depth 6 (thorough 7) over every range of width <=4 at the low end, at 1 and at the type maximum for u8/u16/u32 is enumerated completely (iterative deepening, Clone-shared prefixes) and compared step by step with a plain set model, including the internal interval representation; random sequences of <=60 ops cover extreme ranges ([0,0],[max,max],[0,max],[1,65535],[1,u32::MAX]).",
          "Out-of-range deallocate is excluded (documented assert). The interval representation is read through the verif-hooks accessor verif_intervals().", "DESIGN.md §3 C20"),
